@@ -204,7 +204,7 @@ Proof. repeat split; vm_compute; reflexivity. Qed.
 Example C01_nonvacuous_syntax : syntax_ok ex_expr.
 Proof.
   cbn [syntax_ok ex_expr allP acc_ok]. unfold float_ok, key_ok.
-  repeat split; try (eexists; split; vm_compute; reflexivity); vm_compute; reflexivity.
+  repeat split. eexists. split; [vm_compute; reflexivity | vm_compute; reflexivity].
 Qed.
 
 (* 1 < 'a' has no value; neither has $l[0].x (a non-collection), nor length(3); $l[5] is undefined *)
